@@ -37,14 +37,42 @@ pub fn vf_into_map_collect<A, B, F: Fn(A) -> B>(x: Vec<A>, f: F) -> (r: Vec<B>)
 { x.into_iter().map(f).collect() }
 
 // R3: X.into_iter().flat_map(G).collect::<Vec<_>>()
-pub open spec fn vpins<A, B, G: Fn(A) -> Vec<B>>(g: G, h: spec_fn(A) -> Seq<B>) -> bool {
-    forall|a: A, o: Vec<B>| #[trigger] g.ensures((a,), o) ==> o@ == h(a)
+// assumed (primitive, relational): the i-th call of G yields some output allowed by G's contract;
+// the outputs are concatenated in input order
+pub open spec fn views<B>(parts: Seq<Vec<B>>) -> Seq<Seq<B>> { parts.map_values(|v: Vec<B>| v@) }
+pub open spec fn flat_parts<A, B, G: Fn(A) -> Vec<B>>(g: G, x: Seq<A>, parts: Seq<Vec<B>>, r: Seq<B>) -> bool {
+    parts.len() == x.len()
+    && (forall|i: int| 0 <= i < x.len() ==> g.ensures((x[i],), #[trigger] parts[i]))
+    && r == concat(views(parts))
 }
 #[verifier::external_body]
-pub fn vf_flat_map_collect<A, B, G: Fn(A) -> Vec<B>>(x: Vec<A>, g: G) -> (r: Vec<B>)
+pub fn vf_flat_map_collect_raw<A, B, G: Fn(A) -> Vec<B>>(x: Vec<A>, g: G) -> (r: Vec<B>)
     requires forall|a: A| g.requires((a,)),
-    ensures forall|h: spec_fn(A) -> Seq<B>| vpins(g, h) ==> r@ == #[trigger] mapped(x@, h),
+    ensures exists|parts: Seq<Vec<B>>| flat_parts(g, x@, parts, r@),
 { x.into_iter().flat_map(g).collect::<Vec<_>>() }
+
+// proved wrapper (glue, not assumed): the node-level functional form used by Data::flat_map
+pub open spec fn gpins<'a, T: Queryable + 'a, G: Fn(Pointer<'a, T>) -> Vec<Pointer<'a, T>>>(g: G, h: spec_fn(Node<'a, T>) -> Seq<Node<'a, T>>) -> bool {
+    forall|a: Pointer<'a, T>, o: Vec<Pointer<'a, T>>| #[trigger] g.ensures((a,), o) ==> nds(o@) == h(nd(a))
+}
+pub fn vf_flat_map_collect<'a, T: Queryable + 'a, G: Fn(Pointer<'a, T>) -> Vec<Pointer<'a, T>>>(x: Vec<Pointer<'a, T>>, g: G) -> (r: Vec<Pointer<'a, T>>)
+    requires forall|a: Pointer<'a, T>| g.requires((a,)),
+    ensures forall|h: spec_fn(Node<'a, T>) -> Seq<Node<'a, T>>| gpins(g, h) ==> nds(r@) == #[trigger] mapped(nds(x@), h),
+{
+    let ghost xs = x@;
+    let ghost gg = g;
+    let r = vf_flat_map_collect_raw(x, g);
+    proof {
+        let parts = choose|parts: Seq<Vec<Pointer<'a, T>>>| flat_parts(gg, xs, parts, r@);
+        assert forall|h: spec_fn(Node<'a, T>) -> Seq<Node<'a, T>>| gpins(gg, h) implies nds(r@) == #[trigger] mapped(nds(xs), h) by {
+            assert forall|i: int| 0 <= i < xs.len() implies nds(#[trigger] views(parts)[i]) == h(nd(xs[i])) by {
+                assert(gg.ensures((xs[i],), parts[i]));
+            }
+            lemma_parts_mapped(xs, views(parts), h);
+        }
+    }
+    r
+}
 
 // R5: X.iter().any(P) / X.iter().all(P)
 #[verifier::external_body]
@@ -59,3 +87,30 @@ pub fn vf_iter_all<A, P: Fn(&A) -> bool>(x: &Vec<A>, p: P) -> (r: bool)
     ensures r ==> forall|i: int| 0 <= i < x@.len() ==> p.ensures((&#[trigger] x@[i],), true),
             !r ==> exists|i: int| 0 <= i < x@.len() && p.ensures((&#[trigger] x@[i],), false),
 { x.iter().all(p) }
+
+// E6: `x.into()` through the From<..> supertraits of Queryable (dropped by E6) -> `x.vf_into()`.
+// The instances are assumed: they only name the conversion result (T::from_*_spec) so that specs can talk about it.
+pub trait VfInto<U>: Sized {
+    spec fn vf_into_spec(self) -> U;
+    fn vf_into(self) -> (r: U) ensures r == self.vf_into_spec();
+}
+impl<T: Queryable> VfInto<T> for bool {
+    open spec fn vf_into_spec(self) -> T { T::from_bool_spec(self) }
+    #[verifier::external_body]
+    fn vf_into(self) -> (r: T) { unimplemented!() }
+}
+impl<T: Queryable> VfInto<T> for i64 {
+    open spec fn vf_into_spec(self) -> T { T::from_i64_spec(self) }
+    #[verifier::external_body]
+    fn vf_into(self) -> (r: T) { unimplemented!() }
+}
+impl<T: Queryable> VfInto<T> for f64 {
+    open spec fn vf_into_spec(self) -> T { T::from_f64_spec(self) }
+    #[verifier::external_body]
+    fn vf_into(self) -> (r: T) { unimplemented!() }
+}
+impl<'s, T: Queryable> VfInto<T> for &'s str {
+    open spec fn vf_into_spec(self) -> T { T::from_str_spec(self@) }
+    #[verifier::external_body]
+    fn vf_into(self) -> (r: T) { unimplemented!() }
+}
